@@ -591,6 +591,27 @@ theorem deduplicating_view_is_never_sliced (strict : Bool) (t : Target) (h : t.d
   · rfl
   · simp [h]
 
+/-- planner mirror: a row group whose rows `rowRangeOf` cannot slice (`supportsRowRanges` false: a
+    sequence of segments, a deduplicating or merged view, an empty row group) gets no cut lookups -/
+theorem unsupported_view_is_never_sliced (strict : Bool) (t : Target) (h : t.supportsRanges = false) :
+    hasCuts strict t = false := by
+  unfold hasCuts
+  split
+  · rfl
+  · simp [h]
+
+/-- what the planner cuts, `rowRangeOf` slices: for every row group `supportsRowRanges` accepts (file
+    row groups, buffers, range views, multi row groups of such, plain row groups, and conversions of
+    these to any depth) the range is the slice of its rows, whatever merge and deduplication compute -/
+theorem supported_row_group_ranges_slice_its_rows {α : Type}
+    (m : List (List α) → List α) (d : List α → List α) (s : Shape α) (off len : Nat)
+    (h : supportsRowRanges s = true) :
+    rows true m d (rangeOf s off len) = ((rows true m d s).drop off).take len :=
+  supported_range_is_slice_of_rows m d off len s h
+
+example : supportsRowRanges (.converted (.converted (.multi [.leaf [1, 2], .range (.leaf [3, 4]) 0 1])) : Shape Nat) = true ∧
+    supportsRowRanges (.segments false [.leaf [1], .leaf [2]] : Shape Nat) = false := by decide
+
 example : interleaves (.converted (.segments false [.leaf [1, 2], .range (.leaf [3, 4, 5, 6]) 1 2]) : Shape Nat) = false ∧
     dropsRows (.converted (.segments false [.leaf [1, 2], .range (.leaf [3, 4, 5, 6]) 1 2]) : Shape Nat) = false := by decide
 
